@@ -1,0 +1,114 @@
+//! Verification-only shim (compiled only with `--cfg libp2p_verif`): a public mirror of the
+//! crate-private mplex `Frame` type and a wrapper that drives the real `Codec`
+//! `Encoder` / `Decoder`. No codec logic is re-implemented here.
+
+use std::io;
+
+use asynchronous_codec::{Decoder, Encoder};
+use bytes::{Bytes, BytesMut};
+use libp2p_core::Endpoint;
+
+use crate::codec::{Codec, Frame, LocalStreamId, RemoteStreamId};
+
+/// The codec's frame size limit.
+pub const MAX_FRAME_SIZE: usize = crate::codec::MAX_FRAME_SIZE;
+
+/// Public mirror of `Frame<_>`; `dialer` is the role carried by the stream id.
+#[derive(Debug, Clone, PartialEq, Eq)]
+pub enum VerifFrame {
+    Open { num: u64, dialer: bool },
+    Data { num: u64, dialer: bool, data: Vec<u8> },
+    Close { num: u64, dialer: bool },
+    Reset { num: u64, dialer: bool },
+}
+
+fn role(dialer: bool) -> Endpoint {
+    if dialer {
+        Endpoint::Dialer
+    } else {
+        Endpoint::Listener
+    }
+}
+
+fn mirror<T: Copy>(f: &Frame<T>, parts: impl Fn(T) -> (u64, Endpoint)) -> VerifFrame {
+    let p = |id: T| {
+        let (num, r) = parts(id);
+        (num, r == Endpoint::Dialer)
+    };
+    match f {
+        Frame::Open { stream_id } => {
+            let (num, dialer) = p(*stream_id);
+            VerifFrame::Open { num, dialer }
+        }
+        Frame::Data { stream_id, data } => {
+            let (num, dialer) = p(*stream_id);
+            VerifFrame::Data {
+                num,
+                dialer,
+                data: data.to_vec(),
+            }
+        }
+        Frame::Close { stream_id } => {
+            let (num, dialer) = p(*stream_id);
+            VerifFrame::Close { num, dialer }
+        }
+        Frame::Reset { stream_id } => {
+            let (num, dialer) = p(*stream_id);
+            VerifFrame::Reset { num, dialer }
+        }
+    }
+}
+
+/// One decoded frame seen from both perspectives.
+#[derive(Debug, Clone, PartialEq, Eq)]
+pub struct VerifDecoded {
+    /// the frame with the `RemoteStreamId` exactly as the decoder produced it
+    pub remote: VerifFrame,
+    /// the same frame with the id mapped through the real `RemoteStreamId::into_local()`
+    pub local: VerifFrame,
+}
+
+/// Wrapper over the real mplex `Codec`.
+pub struct VerifCodec(Codec);
+
+impl Default for VerifCodec {
+    fn default() -> Self {
+        Self::new()
+    }
+}
+
+impl VerifCodec {
+    pub fn new() -> Self {
+        VerifCodec(Codec::new())
+    }
+
+    /// Encode a frame carrying a *local* stream id with the real `Encoder`.
+    pub fn encode(&mut self, f: &VerifFrame, dst: &mut BytesMut) -> io::Result<()> {
+        let id = |num: u64, dialer: bool| LocalStreamId::verif_new(num, role(dialer));
+        let frame: Frame<LocalStreamId> = match f {
+            VerifFrame::Open { num, dialer } => Frame::Open {
+                stream_id: id(*num, *dialer),
+            },
+            VerifFrame::Data { num, dialer, data } => Frame::Data {
+                stream_id: id(*num, *dialer),
+                data: Bytes::copy_from_slice(data),
+            },
+            VerifFrame::Close { num, dialer } => Frame::Close {
+                stream_id: id(*num, *dialer),
+            },
+            VerifFrame::Reset { num, dialer } => Frame::Reset {
+                stream_id: id(*num, *dialer),
+            },
+        };
+        self.0.encode(frame, dst)
+    }
+
+    /// Run the real `Decoder` once on `src`.
+    pub fn decode(&mut self, src: &mut BytesMut) -> io::Result<Option<VerifDecoded>> {
+        Ok(self.0.decode(src)?.map(|f| {
+            let remote = mirror(&f, |id: RemoteStreamId| id.verif_parts());
+            let local = mirror(&f, |id: RemoteStreamId| id.into_local().verif_parts());
+            VerifDecoded { remote, local }
+        }))
+    }
+}
